@@ -178,6 +178,9 @@ func (b *blockMap) CopySizes(blob []byte) error {
 		if newf.Name != oldf.Name {
 			return fmt.Errorf("old block map doesn't match new: %s", oldf.Name)
 		}
+		if len(oldf.Block) > len(newf.Block) {
+			return fmt.Errorf("old block map doesn't match new: %s", oldf.Name)
+		}
 		for j, oldblock := range oldf.Block {
 			newf.Block[j].Size = oldblock.Size
 		}
